@@ -1,6 +1,6 @@
 (* C13/Corr.v — correspondence runner. *)
 From Coq Require Import String List Bool Arith NArith.
-From Verif Require Import Base.Str Base.Run C13.Model C13.Builders C13.Lex C13.Extra.
+From Verif Require Import Base.Str Base.Run C13.Model C13.Builders C13.Lex C13.Extra C13.Farg.
 From VerifGen Require Import C13Tables.
 Import ListNotations.
 Open Scope string_scope.
@@ -15,6 +15,8 @@ Record case := mk {
   c_x : extra;
   c_b : binfo;              (* abstract arguments of a modelled builder, or BOther *)
   c_xb : xinfo;             (* the same for the builders of Extra.v (argument-level models), or XBNone *)
+  c_fa : option fa_args;    (* create_authn_response / create_attribute_response / setup_assertion: the farg argument
+                               tree with what update_farg completes it from (Farg.v), or None *)
   c_tree : option tree;     (* the emitted document (None: the call raised, nothing was emitted) *)
   c_xsd : bool;             (* saml2.xml.schema.validate accepts *)
   c_xsd_ext : bool;         (* the shipped XSDs incl. the extension schemas accept *)
@@ -61,8 +63,27 @@ Definition lex_agrees (c : case) : bool :=
   | XSid s => sid_shape s && check_lex LNCName s
   end.
 
+(* the Subject of every Assertion that the document carries in the clear (a Response's, or a bare Assertion's) is
+   the one Farg.subject_of builds from the caller's farg; the model raises exactly when the call raised *)
+Definition tagged (ns local : string) (t : tree) : bool := qeqb (root_tag t) (Q ns local).
+
+Definition subjects_of_doc (t : tree) : list tree :=
+  let asserts := if tagged SAML_NS "Assertion" t then [t] else filter (tagged SAML_NS "Assertion") (root_kids t) in
+  flat_map (fun a => filter (tagged SAML_NS "Subject") (root_kids a)) asserts.
+
+Definition farg_agrees (c : case) : bool :=
+  match c_fa c with
+  | None => true
+  | Some a =>
+      match subject_tree a, c_tree c with
+      | None, None => true
+      | Some m, Some t => match subjects_of_doc t with [] => false | l => forallb (tree_eqb m) l end
+      | _, _ => false
+      end
+  end.
+
 Definition agrees (c : case) : bool :=
-  lex_agrees c &&
+  lex_agrees c && farg_agrees c &&
   match c_tree c with None => shape_agrees c | Some _ =>
   match c_mut c with
   | O => Bool.eqb (struct_ok c) (oracle_ok c) && shape_agrees c
@@ -171,4 +192,5 @@ Definition explain (c : case) :=
    match c_tree c with
    | Some t => (valid_doc live_table t, ids_unique live_table live_ids t, xsi_ok t, choices_ok live_table choice_rules t)
    | None => (true, true, true, true)
-   end).
+   end,
+   (farg_agrees c, match c_fa c with Some a => subject_tree a | None => None end)).
